@@ -127,10 +127,21 @@ type Trace struct {
 	Steps   []Step
 	NewErr  error
 	Created bool
+	// HeldChanged: a slice handed to ReassemblyComplete that the Stream kept no longer holds, at the end of the
+	// history, the messages it held when it was delivered ("" = all kept slices are intact)
+	HeldChanged string
+}
+
+type heldSlice struct {
+	given []*auparse.AuditMessage // the slice exactly as the callback got it
+	then  []*auparse.AuditMessage // its elements at that moment
+	step  int
 }
 
 type recorder struct {
 	cur   *Step
+	held  []heldSlice
+	stepN int
 	byPtr map[*auparse.AuditMessage]int
 	// re-entrancy
 	r       *libaudit.Reassembler
@@ -146,6 +157,7 @@ type recorder struct {
 const nestedIDBase = 1 << 20
 
 func (r *recorder) ReassemblyComplete(msgs []*auparse.AuditMessage) {
+	r.held = append(r.held, heldSlice{given: msgs, then: append([]*auparse.AuditMessage(nil), msgs...), step: r.stepN})
 	cb := CB{IsEv: true}
 	for _, m := range msgs {
 		id := -1
@@ -238,7 +250,7 @@ func exec(h History) *Trace {
 	rec.used = seen
 	for i, o := range h.Ops {
 		st := &tr.Steps[i]
-		rec.cur = st
+		rec.cur, rec.stepN = st, i
 		switch o.K {
 		case opPush:
 			m := &auparse.AuditMessage{RecordType: auparse.AuditMessageType(o.Typ), Sequence: o.Seq, RawData: "m" + strconv.Itoa(i)}
@@ -274,6 +286,19 @@ func exec(h History) *Trace {
 			st.T0 = time.Now()
 			st.Err = r.Close()
 			st.T1 = time.Now()
+		}
+	}
+	// what was handed to the Stream stays what it was (a Stream may keep the slices it is given)
+	for _, hs := range rec.held {
+		for j := range hs.then {
+			if j >= len(hs.given) || hs.given[j] != hs.then[j] {
+				seq := uint32(0)
+				if hs.then[j] != nil {
+					seq = hs.then[j].Sequence
+				}
+				tr.HeldChanged = fmt.Sprintf("the slice delivered in op %d (event seq %d, %d messages) was rewritten afterwards: element %d is another message now", hs.step, seq, len(hs.then), j)
+				return tr
+			}
 		}
 	}
 	return tr
@@ -337,6 +362,18 @@ var widthChoices = []uint32{4, 12, 40, 1<<24 - 1}
 
 var typChoices = []uint16{1300, 1300, 1302, 1307, 1309, 1400, 1326, 2099, 1301,
 	eoe, eoe, 1327, 1100, 1299, 2100, 1000, 0, 65535, 1305}
+
+// genTyp: mostly the types that matter to the completion rule and its boundaries, but every fifth record has any
+// type of the range whose records do not complete an event (1300..2099) or any type at all.
+func genTyp(t *rapid.T, choices []uint16) uint16 {
+	switch rapid.IntRange(0, 9).Draw(t, "typkind") {
+	case 8:
+		return rapid.OneOf(rapid.Uint16Range(1300, 2099), rapid.SampledFrom([]uint16{1400, 1500, 1699, 1700, 1701, 1799, 1800, 1999, 2000, 2098})).Draw(t, "typmid")
+	case 9:
+		return rapid.Uint16().Draw(t, "typany")
+	}
+	return rapid.SampledFrom(choices).Draw(t, "typ")
+}
 
 // big histories: mostly records that do not complete their event, so that the buffer fills
 var typChoicesBig = []uint16{1300, 1300, 1300, 1302, 1302, 1307, 1309, 1400, 1326, 1301, 1300, 1302, 1303, 1306, 1300, 1302, eoe, 1327, 1100, 1305}
@@ -466,7 +503,7 @@ func genHistory(t *rapid.T, c genCfg) History {
 			if c.raw && rapid.IntRange(0, 3).Draw(t, "rawpush") == 0 {
 				kind = opPushRaw
 			}
-			h.Ops = append(h.Ops, Op{K: kind, Seq: seq, Typ: rapid.SampledFrom(typs).Draw(t, "typ")})
+			h.Ops = append(h.Ops, Op{K: kind, Seq: seq, Typ: genTyp(t, typs)})
 		}
 	}
 	_ = closed
